@@ -334,4 +334,67 @@ Proof. intros Hh. unfold e_create_copied_sub_element, raw_create_copied_sub_elem
 Lemma irpq_e_copy_at h other pos : ~ P h -> irpq NPq (e_create_copied_sub_element_at T LATEST h other pos).
 Proof. intros Hh. unfold e_create_copied_sub_element_at, raw_create_copied_sub_element_at. irp_tac. Qed.
 
+
+(* ---------- new model, new file ---------- *)
+Lemma nth_opt_snoc {A} (l : list A) x k :
+  nth_opt (l ++ [x]) k = nth_opt l k \/ (k = List.length l /\ nth_opt l k = None /\ nth_opt (l ++ [x]) k = Some x).
+Proof.
+  revert k. induction l as [|y l IH]; intros [|k]; cbn [nth_opt app List.length]; auto.
+  destruct (IH k) as [H|(H1 & H2 & H3)]; [left; exact H|right]. subst. auto.
+Qed.
+
+Lemma irpq_new_model : irpq (fun m => m <> b) (new_model T root_attrs).
+Proof.
+  intros w r w' S E. unfold new_model in E.
+  destruct (et_new T (autosar_element T)) as [ty| |]; destruct (elem T (autosar_element T)) as [ed| |]; try discriminate E.
+  injection E as <- <-. destruct S as (S1 & S2 & S3 & (xb & S4)).
+  assert (Hfresh : ~ P (w_next w)). { intros Hp. apply S1 in Hp. lia. }
+  assert (Hlen : N.of_nat (List.length (w_models w)) <> b).
+  { intros <-. apply nth_opt_Some in S4. rewrite Nnat.Nat2N.id in S4. lia. }
+  split; [|split].
+  - split; [|split; [|split]]; cbn [w_next w_nodes w_models].
+    + intros i Hi. apply S1 in Hi. lia.
+    + intros j n Hj Hn. destruct (N.eq_dec j (w_next w)) as [->|Hne].
+      * rewrite upd_eq in Hn. injection Hn as <-. split; [intros c []|]. split; [intros p; cbn; discriminate|].
+        cbn. intros [= E]. exact (Hlen E).
+      * rewrite upd_neq in Hn by exact Hne. eapply S2; eauto.
+    + intros k x Hk Hx. destruct (nth_opt_snoc (w_models w) (mkModel (w_next w) [] [] []) k) as [H|(_ & _ & H)]; rewrite H in Hx.
+      * eapply S3; eauto.
+      * injection Hx as <-. split; [exact Hfresh|]. split; [intros ? ? []|intros ? ? ? []].
+    + exists xb. destruct (nth_opt_snoc (w_models w) (mkModel (w_next w) [] [] []) (N.to_nat b)) as [H|(_ & H & _)]; congruence.
+  - split; [|split]; cbn [w_next w_nodes w_models w_files].
+    + intros j Hj. apply upd_neq. intros ->. auto.
+    + destruct (nth_opt_snoc (w_models w) (mkModel (w_next w) [] [] []) (N.to_nat b)) as [H|(_ & H & _)]; congruence.
+    + apply FileSame_eq. reflexivity.
+  - intros a [= <-]. exact Hlen.
+Qed.
+
+Lemma Sealed_new_file w m name version :
+  m <> b -> Sealed P b w ->
+  let w1 := mkWorld (w_nodes w) (w_next w) (w_files w ++ [mkFile m name version None]) (w_models w) in
+  Sealed P b w1 /\ Same P b w w1.
+Proof.
+  intros Hm S w1. split; [exact S|]. split; [reflexivity|]. split; [reflexivity|].
+  intros k. subst w1. cbn [w_files].
+  destruct (nth_opt_snoc (w_files w) (mkFile m name version None) k) as [H|(_ & H1 & H2)]; [left; exact H|right].
+  rewrite H1, H2. split; [discriminate|]. intros fl [= <-]. exact Hm.
+Qed.
+
+Lemma irpq_create_file m name version : m <> b -> irp (m_create_file T m name version).
+Proof.
+  intros Hm. unfold m_create_file. apply irpq_get_model; [exact Hm|intros x Gx].
+  intros w r w' S E. apply wbind_inv in E as [(w0 & w1 & E1 & E2) | (e & E1 & _)]; [|apply wget_inv in E1 as ([=] & _)].
+  apply wget_inv in E1 as ([= ->] & ->).
+  destruct (existsb _ (m_files x)).
+  { apply wfail_inv in E2 as (-> & ->). split; [exact S|]. split; [apply Same_refl|]. intros a [=]. }
+  apply wbind_inv in E2 as [(u & w1 & E1 & E2) | (e & E1 & _)]; [|discriminate E1].
+  unfold wput in E1. injection E1 as <- <-.
+  destruct (Sealed_new_file w m name version Hm S) as (S1 & Sm1). cbv zeta in S1, Sm1.
+  revert E2. generalize (N.of_nat (List.length (w_files w))). intros fid E2.
+  assert (Hk : irp (modify_model m (fun y => set_mfiles y (m_files y ++ [fid]));;
+                     (do w2 <- wget; do _ <- wtry (add_to_file_restricted T (fuel_of w2) (m_root x) fid); wret fid))%W).
+  { irp_tac. }
+  destruct (Hk _ _ _ S1 E2) as (S2 & Sm2 & _). split; [exact S2|]. split; [eapply Same_trans; eauto|auto].
+Qed.
+
 End Ops.
